@@ -26,6 +26,11 @@ pub struct RfcOracle {
     ceilings: BTreeMap<(usize, u64), u32>,
     last_x: BTreeMap<(usize, u64), u32>,
     feedback_in_call: BTreeMap<(usize, u64), u64>,
+    /// World U: endpoints that have sent a frame; the report handed to the step() in progress
+    rate_started: std::collections::BTreeSet<usize>,
+    report_given: Option<(usize, u64)>,
+    report_taken: Option<(usize, u64)>,
+    reports_checked: u64,
     feedbacks: u64,
     expiries: u64,
     eqn_checks: u64,
@@ -37,7 +42,7 @@ pub struct RfcOracle {
 
 impl RfcOracle {
     pub fn new(property: &'static str) -> Self {
-        Self { property, ceilings: BTreeMap::new(), last_x: BTreeMap::new(), feedback_in_call: BTreeMap::new(), feedbacks: 0, expiries: 0, eqn_checks: 0, slowstart_checks: 0, leave_slowstart: 0, rtt_zero: 0, idle_checks: 0 }
+        Self { property, ceilings: BTreeMap::new(), last_x: BTreeMap::new(), feedback_in_call: BTreeMap::new(), rate_started: Default::default(), report_given: None, report_taken: None, reports_checked: 0, feedbacks: 0, expiries: 0, eqn_checks: 0, slowstart_checks: 0, leave_slowstart: 0, rtt_zero: 0, idle_checks: 0 }
     }
 
     fn ceiling(&self, ep: usize, hc: u64) -> u32 {
@@ -45,10 +50,41 @@ impl RfcOracle {
     }
 }
 
+impl RfcOracle {
+    fn on_trace_feedback(&mut self, rec: &Rec, cx: &Cx) -> Option<Violation> {
+        self.on(rec, cx)
+    }
+}
+
 impl Oracle for RfcOracle {
     fn on(&mut self, rec: &Rec, cx: &Cx) -> Option<Violation> {
         let prop = self.property;
         match rec {
+            Rec::Call { op: crate::plan::Op::RateSent { ep }, skipped: false, .. } => {
+                self.rate_started.insert(*ep);
+            }
+            Rec::Call { call, op: crate::plan::Op::RateStep { ep, fb: Some(_) }, skipped: false, .. } => {
+                if self.rate_started.contains(ep) {
+                    self.report_given = Some((*ep, *call));
+                }
+            }
+            Rec::CallEnd { call, ep: Some(ep), panic: None } => {
+                // a feedback report handed to step() is processed by that step, whatever timer
+                // happens to expire at the same moment
+                if self.report_given == Some((*ep, *call)) {
+                    self.reports_checked += 1;
+                    if self.report_taken != Some((*ep, *call)) {
+                        self.report_given = None;
+                        return viol(prop, "feedback_report_ignored", format!("endpoint {}: the feedback report handed to step() in call {} was not processed (no RTT sample, no rate update)", ep, call), *call);
+                    }
+                    self.report_given = None;
+                }
+            }
+            Rec::Trace { call, ep, ev: T::Feedback { .. }, .. } if self.report_given == Some((*ep, *call)) && self.report_taken != Some((*ep, *call)) => {
+                self.report_taken = Some((*ep, *call));
+                // fall through is not possible in a match: re-dispatch below
+                return self.on_trace_feedback(rec, cx);
+            }
             Rec::Trace { call, ep, hc, ev } => match ev {
                 T::HcCreated { tx_bandwidth_limit, .. } => {
                     // World B clients: the ceiling is what the two configurations say, not what
@@ -177,6 +213,7 @@ impl Oracle for RfcOracle {
     fn reach(&self, out: &mut BTreeMap<String, u64>) {
         let mut a = |k: &str, v: u64| *out.entry(k.to_string()).or_insert(0) += v;
         a("feedback_updates_checked", self.feedbacks);
+        a("feedback_reports_handed_to_step_checked", self.reports_checked);
         a("nofeedback_expiries_checked", self.expiries);
         a("throughput_equation_checks", self.eqn_checks);
         a("slow_start_checks", self.slowstart_checks);
